@@ -467,6 +467,12 @@ def main(tier, seed, replay=None):
                     print("run %s %s: %s" % (label, steps, v))
                     for e in errs:
                         print("    " + e[:500])
+                    mr = mres[tag].get(cs.name, {}).get(label)
+                    for who, rr_ in (("impl ", r), ("model", mr), ("spec = one-shot impl", ref)):
+                        if rr_ and rr_["steps"]:
+                            print("    %s visible after the last import:" % who)
+                            for s_ in rr_["steps"][-1]["streams"].values():
+                                print("        id %d %s" % (s_["id"], show_stream(s_)[:300]))
                 if v.startswith("known:") and v.split(":", 1)[1] not in known_ids:
                     errs = errs + ["(shape of finding %s, which is not listed in KNOWN_FINDINGS.txt)" % v.split(":", 1)[1]]
                     v = "violation"
